@@ -345,6 +345,10 @@ class Env(object):
         elif kind == 'reset':
             if sock is not None:
                 sock.reset = True
+        elif kind == 'gone':
+            # the connection is dead but nothing is readable yet: the next send fails (EPIPE / ECONNRESET)
+            if sock is not None:
+                sock.fail_send = True
         elif kind == 'tick':
             self.clock.now += ev[1]
         elif kind == 'user':
